@@ -204,11 +204,14 @@ def probe_independence(g, n: int) -> str | None:
     return None
 
 
-def alphabet(n: int, values, bounds, m: Model, with_neg: bool):
+def alphabet(n: int, values, bounds, m: Model, with_neg: bool, extended: bool | None = None):
     """Enabled operations in the state described by the model, simplest first."""
     ops = []
     N = 1 << n
-    scalar = list(range(1, N)) if n <= 3 else [1, 3, 6, N - 2, N - 1]
+    if extended is None:
+        extended = n != 2          # the closure at n = 2 would grow from 1 331 to > 100 000 states with the two extensions below
+    # the empty coalition is a coalition like any other for the setters
+    scalar = (list(range(0 if extended else 1, N)) if n <= 3 else [0, 1, 3, 6, N - 2, N - 1])
     for s in scalar:
         if m.t[s][0]:
             ops.append(("unset_value", s))
@@ -235,6 +238,12 @@ def alphabet(n: int, values, bounds, m: Model, with_neg: bool):
             vals = tuple(b if i % 2 == 0 else bounds[0] for i in range(size))
             ops.append(("set_lower_bounds", sub, vals))
             ops.append(("set_upper_bounds", sub, vals))
+    # "unbounded": infinite bounds are legitimate bound values (known coalitions must not even notice them)
+    inf = float("inf")
+    for sub in ((None, subsets[-2]) if extended else ()):
+        size = N if sub is None else len(sub)
+        ops.append(("set_upper_bounds", sub, (inf,) * size))
+        ops.append(("set_lower_bounds", sub, (-inf,) * size))
     if n <= 3:
         # arguments that alias the object's own table: the operation must behave as if it had been given a copy
         ops.append(("set_values_alias_rev",))
